@@ -827,7 +827,7 @@ func (env *Env) callExpr(n ECall) (Val, error) {
 		}
 		bound := "alloc0"
 		if env.callSite {
-			bound = "(+ alloc0 1000000)"
+			bound = env.e.wmCall.S
 		}
 		env.e.declare("alloc0", SInt)
 		var cs []Term
